@@ -510,6 +510,13 @@ func (s *Server) dispatch(cs *ConnState, argv [][]byte) Reply {
 		}
 	}
 	if !cs.Authed && name != "auth" {
+		if _, known := ref.KeySpecs[name]; !known && !sessionCommands[name] && s.major() >= 5 {
+			// as Redis >= 5 does: the command table is consulted before the authentication check, and the
+			// error for an unknown command echoes its first arguments
+			r := Err(UnknownCommandError(argv))
+			s.record(cs, argv, r, false)
+			return r
+		}
 		r := Err("NOAUTH Authentication required.")
 		s.record(cs, argv, r, false)
 		return r
@@ -558,6 +565,24 @@ func (s *Server) dispatch(cs *ConnState, argv [][]byte) Reply {
 	s.seq++
 	s.Log = append(s.Log, Cmd{Seq: s.seq, Conn: cs.ID, DB: dbBefore, Argv: argv, Name: name, Reply: r, At: s.Now()})
 	return r
+}
+
+var sessionCommands = map[string]bool{"auth": true, "ping": true, "select": true, "info": true, "multi": true, "exec": true, "discard": true,
+	"script": true, "eval": true, "evalsha": true, "restore": true, "dump": true, "scan": true, "cluster": true, "config": true, "dbsize": true,
+	"pttl": true, "ttl": true, "exists": true, "hgetall": true, "hdel": true, "keys": true, "flushall": true, "flushdb": true, "publish": true,
+	"pexpire": true, "pexpireat": true, "expire": true, "expireat": true, "object": true, "type": true, "echo": true, "quit": true}
+
+// UnknownCommandError renders Redis 5's reply to a command it does not know (without the leading '-').
+func UnknownCommandError(argv [][]byte) string {
+	var b strings.Builder
+	fmt.Fprintf(&b, "ERR unknown command `%s`, with args beginning with: ", argv[0])
+	for _, a := range argv[1:] {
+		if b.Len() > 128+60 {
+			break
+		}
+		fmt.Fprintf(&b, "`%.*s`, ", 128, a)
+	}
+	return b.String()
 }
 
 func (s *Server) major() int {
